@@ -270,6 +270,10 @@ class LSMTree(Entity):
         self._total_sstables_checked: int = 0
         self._total_bloom_saves: int = 0
 
+        # True while a compaction process is between selecting its inputs and
+        # installing its output
+        self._compaction_in_progress: bool = False
+
     def downstream_entities(self) -> list[Entity]:
         if self._wal is not None:
             return [self._wal]
@@ -559,9 +563,16 @@ class LSMTree(Entity):
 
     def _compact(self) -> Generator[float]:
         """Run a compaction cycle."""
+        # One compaction at a time: a second compaction selecting inputs while the
+        # first is still writing would merge SSTables the first one is about to
+        # replace (resurrecting deleted keys and shadowing newer values).
+        if self._compaction_in_progress:
+            return
+
         source_level, sstables = self._compaction_strategy.select_compaction(self._levels)
         if not sstables:
             return
+        self._compaction_in_progress = True
 
         target_level = min(source_level + 1, self._max_levels - 1)
 
@@ -602,6 +613,7 @@ class LSMTree(Entity):
                     self._levels[target_level].remove(sst)
             self._levels[target_level].append(new_sst)
 
+        self._compaction_in_progress = False
         self._total_compactions += 1
         logger.debug(
             "[%s] Compacted L%d -> L%d (%d SSTables merged)",
